@@ -483,6 +483,11 @@ class ArrayTheory:
             b = r.at(e, s, i) if ra else r
             return E.Engine.binop(e, s, op, a, b, node)
         out = Arr(base.n, at, np=True, taint=E.t_or(l.taint, r.taint), name='ew')
+        try:
+            # structural identity: the same elementwise expression over the same operands is the same array value
+            out._v = self.uf('ew_' + type(op).__name__, V, V, V)(self.to_V(l), self.to_V(r))
+        except E.Unsupported:
+            pass
         if la and not ra and isinstance(op, ast.Div):
             out.scaled_from = (l, r.real())
         return out
